@@ -3,6 +3,7 @@
 use serde_json::{Value, json};
 use std::io::{BufRead, Write};
 
+mod ops_argv;
 mod ops_env;
 mod ops_graph;
 mod ops_inventory;
@@ -46,6 +47,7 @@ fn dispatch(op: &str, req: &Value) -> Value {
         "env-apply" => ops_env::apply(req),
         "env-roundtrip" => ops_env::roundtrip(req),
         "env-paths" => ops_env::paths(req),
+        "argv" => ops_argv::run(req),
         "dep-graph" => ops_graph::run(req),
         _ => json!({"error": format!("unknown op {op}")}),
     }
